@@ -26,13 +26,28 @@ Proof.
   unfold rootpath. rewrite Hp. reflexivity.
 Qed.
 
-Lemma to_text_unrooted u : wf_unrooted_base u -> to_text u = to_text (rootpath u).
+(* what rendering and merging need of a base: scheme, host, quotable segments *)
+Definition base_shape (u : url) : Prop :=
+  u_scheme u <> [] /\ u_host u <> [] /\ Forall seg_ok (u_path u).
+Definition unrooted_shape (u : url) : Prop :=
+  base_shape (rootpath u) /\ exists c s rest, u_path u = (c :: s) :: rest.
+
+Lemma unrooted_fields_gen u : unrooted_shape u ->
+  exists c s rest, u_path u = (c :: s) :: rest /\
+    rootpath u = mkUrl (u_scheme u) (u_sep u) (u_user u) (u_pass u) (u_host u) (u_port u)
+                       ([] :: (c :: s) :: rest) (u_query u) (u_frag u).
 Proof.
-  intro W. destruct (unrooted_fields u W) as (c & s & rest & Hp & ER). destruct W as [Wr _].
-  rewrite ER in *. pose proof (wb_segs _ Wr) as Hsegs. cbn [u_path] in Hsegs.
+  intros [_ (c & s & rest & Hp)]. exists c, s, rest. split; [exact Hp|].
+  unfold rootpath. rewrite Hp. reflexivity.
+Qed.
+
+Lemma to_text_unrooted_gen u : unrooted_shape u -> to_text u = to_text (rootpath u).
+Proof.
+  intro W. destruct (unrooted_fields_gen u W) as (c & s & rest & Hp & ER). destruct W as [(Hs0 & Hh0 & Hsegs) _].
+  rewrite ER in *. cbn [u_path] in Hsegs.
   inversion Hsegs as [|? ? _ Hs']; subst.
-  pose proof (wb_scheme_ne _ Wr) as Hs. cbn [u_scheme] in Hs.
-  pose proof (wb_host_ne _ Wr) as Hh. cbn [u_host] in Hh.
+  pose proof Hs0 as Hs. cbn [u_scheme] in Hs.
+  pose proof Hh0 as Hh. cbn [u_host] in Hh.
   pose proof (authority_nonempty u Hh) as Ha. unfold authority_text in Ha.
   assert (Hc : (SL =? c) = false).
   { inversion Hs' as [|? ? Hcs _]; subst. exact (seg_ok_first_not_slash c s Hcs). }
@@ -48,13 +63,13 @@ Proof.
   reflexivity.
 Qed.
 
-Lemma navigate_rel_unrooted u r : wf_unrooted_base u -> wf_ref r ->
+Lemma navigate_rel_unrooted_gen u r : unrooted_shape u -> wf_ref r ->
   navigate_rel u r = navigate_rel (rootpath u) r.
 Proof.
-  intros W Wr. destruct (unrooted_fields u W) as (c & s & rest & Hp & ER). destruct W as [Wb _].
+  intros W Wr. destruct (unrooted_fields_gen u W) as (c & s & rest & Hp & ER). destruct W as [(_ & Hh0 & _) _].
   rewrite ER in *. unfold navigate_rel. cbn [u_scheme u_host u_path u_query u_user u_pass u_port].
   rewrite Hp. rewrite (path_text_join r (wr_segs r Wr)).
-  pose proof (wb_host_ne _ Wb) as Hh. cbn [u_host] in Hh. rewrite (nonempty_true _ Hh), orb_true_r. cbn [andb].
+  pose proof Hh0 as Hh. cbn [u_host] in Hh. rewrite (nonempty_true _ Hh), orb_true_r. cbn [andb].
   pose proof (wr_segs r Wr) as Hsegs.
   destruct (u_path r) as [|x rrest] eqn:Hr.
   - reflexivity.
@@ -65,6 +80,19 @@ Proof.
       unfold starts_with. cbn [strip_prefix nonempty]. rewrite (seg_ok_first_not_slash c' x' Hx).
       destruct rest as [|s2 rest2]; reflexivity.
 Qed.
+
+Lemma wf_unrooted_shape u : wf_unrooted_base u -> unrooted_shape u.
+Proof.
+  intros [W E]. split; [|exact E].
+  split; [exact (wb_scheme_ne _ W)|]. split; [exact (wb_host_ne _ W) | exact (wb_segs _ W)].
+Qed.
+
+Lemma to_text_unrooted u : wf_unrooted_base u -> to_text u = to_text (rootpath u).
+Proof. intro W. apply to_text_unrooted_gen, wf_unrooted_shape, W. Qed.
+
+Lemma navigate_rel_unrooted u r : wf_unrooted_base u -> wf_ref r ->
+  navigate_rel u r = navigate_rel (rootpath u) r.
+Proof. intros W Wr. apply navigate_rel_unrooted_gen; [apply wf_unrooted_shape, W | exact Wr]. Qed.
 
 Theorem navigate_unrooted_refines_rfc u d : wf_unrooted_base u -> wf_ref d \/ wf_base d ->
   spec_navigate_strict (to_text u) (to_text d) (to_text (navigate_url u d)) = true /\
